@@ -13,6 +13,12 @@
 //!   using the short forms emits shorter: the switch opcode moves down, its padding absorbs the
 //!   difference, and a jump that starts between the shrinker and the switch gets longer.
 //!
+//! Beyond one, two and three far jumps the scenes build **chains** (k jumps, every rewriting pushes exactly one more
+//! jump over the limit: k + 1 layouts), **fans** (k jumps that are all too far at once: a writer that finds one per
+//! attempt needs k + 1 attempts, k up to 260 / 1000) and **mixed chains** (forward and backward jumps rewritten
+//! alternately, the backward ones in line), optionally with a switch inside every span (its padding changes with
+//! every rewriting), with the same body as a second method, and with a far `goto` back to a rewritten jump.
+//!
 //! The aiming assumes how a writer lays code out (short forms, first-use pool); nothing here decides a
 //! verdict — if the assumptions stop holding the vacuity floors of the check fail (exit 2).
 
@@ -223,7 +229,7 @@ impl Scene {
 				}
 			}
 		}
-		Intent { widened, cascade, overflow: settled.total > 65535, strict: true }
+		Intent { widened, cascade, overflow: settled.total > 65535, strict: true, invalid_code: false, table_overflow: false }
 	}
 
 	/// The class: method `fill` (135 distinct `ldc2_w`), then method `m` with the scene; reversed pool order.
@@ -372,6 +378,13 @@ pub struct Intent {
 	pub overflow: bool,
 	/// the input must be accepted by the strict parser
 	pub strict: bool,
+	/// the input is deliberately not a valid class file (a code constraint of JVMS 4.9.1 is broken that the reader does
+	/// not check): an output that the strict parser rejects for the very same reason states the given description
+	/// faithfully and is not charged to the writer
+	pub invalid_code: bool,
+	/// a table of the description has more than 65535 entries (the input spreads it over several attributes): a writer
+	/// that emits one attribute per table has to refuse; a clean error is accepted
+	pub table_overflow: bool,
 }
 
 pub const COND_OPS: [u8; 16] = [0x99, 0x9a, 0x9b, 0x9c, 0x9d, 0x9e, 0x9f, 0xa0, 0xa1, 0xa2, 0xa3, 0xa4, 0xa5, 0xa6, op::IFNULL, op::IFNONNULL];
@@ -389,9 +402,34 @@ pub enum Spec {
 	/// a method of exactly `total` bytes of fixed-size instructions
 	Plain { total: u32, style: u8 },
 	/// a far jump plus a tail so that the settled output is `total` bytes long
-	Length { op: u8, total: u32, g: u32 },
+	Length { op: u8, total: u32, g: u32, decor: u8 },
 	/// a backward conditional jump over `d` bytes whose opcode sits at `p` in the output
 	HighBackward { op: u8, p: u32, d: i32 },
+	/// `k` forward jumps crossing each other, each one pushed over the limit by the rewriting of the next (see `chain`)
+	/// `sw`: 0 = no switch; 1..=4 a tableswitch, 5..=8 a lookupswitch `(sw - 1) % 4` bytes after the last jump, inside every
+	/// span: each rewriting moves it and changes its padding, so a span grows by anything between 2 - 3 and 5 + 3 bytes
+	Chain { k: u32, pattern: u8, tight: bool, g: u32, decor: u8, twin: bool, sw: u8 },
+	/// `k` forward jumps side by side that all need the long form at once (one more attempt per jump)
+	/// `loopback`: the code ends in a `goto` back to the first jump (a far backward jump whose target is a rewritten jump)
+	Fan { k: u32, pattern: u8, same_target: bool, decor: u8, loopback: bool },
+	/// `m` forward and `m` backward jumps crossing each other, rewritten alternately (see `mixed_chain`)
+	Mixed { m: u32, pattern: u8, tight: bool, gap: u32, g: u32, decor: u8 },
+}
+
+/// opcodes of the jumps of a chain, by position
+fn pattern_op(pattern: u8, i: usize) -> u8 {
+	match pattern {
+		0 => COND_OPS[i % COND_OPS.len()],
+		1 => op::GOTO,
+		2 => [op::IFEQ, op::GOTO, op::IFNONNULL, op::JSR][i % 4],
+		3 => [op::GOTO, IF_ICMPGE, op::JSR, op::IFNULL, 0xa5][i % 5],
+		_ => op::JSR,
+	}
+}
+
+/// bytes a jump grows by when it is rewritten in its long form
+fn growth(op: u8) -> i64 {
+	if is_uncond(op) { 2 } else { 5 }
 }
 
 pub struct Case {
@@ -521,6 +559,7 @@ fn triple(ops: [u8; 3], d: [i32; 3], a: u32, b: u32, g: u32) -> Option<Scene> {
 /// kind 2: backward jump, then switch with far backward arms
 /// kind 3: `pre` growers (>0) or shrinkers (<0), jump, `r` bytes, switch, filler, target: the padding of the
 ///         switch differs between input and output and lengthens or shortens the jump
+/// kind 4: the same with a backward jump: `pre` growers/shrinkers, target, `r` bytes, switch, filler, jump
 fn switch_scene(kind: u8, lookup: bool, op: u8, r: u32, pre: i32, d: i32, g: u32) -> Option<Scene> {
 	let mut s = Scene::default();
 	let sw = |default: usize, arms: Vec<usize>| if lookup { El::Lookup { default, arms } } else { El::Table { default, arms } };
@@ -555,6 +594,25 @@ fn switch_scene(kind: u8, lookup: bool, op: u8, r: u32, pre: i32, d: i32, g: u32
 			s.pad(r);
 			s.push(sw(0, vec![0, 3]));
 			s.target(3);
+			d < 0 && s.fit(x, j, d)
+		},
+		4 => {
+			// `pre` growers or shrinkers, target, `r` bytes, switch, filler, backward jump: the padding of the switch
+			// differs between input and output and lengthens or shortens the backward jump
+			if pre > 0 {
+				s.grow(pre as u32);
+			} else if pre < 0 {
+				s.push(El::Shrink1((-pre) as u32 % 4));
+				if -pre >= 4 {
+					s.push(El::Shrink2((-pre) as u32 / 4));
+				}
+			}
+			s.target(0);
+			s.pad(r);
+			s.push(sw(2, vec![0, 2]));
+			s.mark(2);
+			let x = s.pad(0);
+			let j = s.jump(op, 0);
 			d < 0 && s.fit(x, j, d)
 		},
 		_ => {
@@ -612,6 +670,105 @@ fn high_backward(op: u8, p: u32, d: i32) -> Option<Scene> {
 	Some(s)
 }
 
+/// J1 … Jk, growers, filler, T1 … Tk (all forward, crossing). J_{i+1} lies inside the span of J_i, so rewriting it
+/// lengthens J_i. The distances (all-narrow output layout) are chosen so that only Jk is too far at first and every
+/// rewriting pushes exactly the next jump over the limit: k + 1 layouts. `tight`: each pushed jump ends up over
+/// exactly +32768; otherwise it sat at exactly +32767 before it was pushed.
+fn chain(ops: &[u8], tight: bool, g: u32, sw: u8) -> Option<Scene> {
+	let k = ops.len();
+	let mut s = Scene::default();
+	let js: Vec<usize> = ops.iter().enumerate().map(|(i, o)| s.jump(*o, i + 1)).collect();
+	if sw > 0 {
+		s.pad_style((sw as u32 - 1) % 4, 2);
+		let (default, arms) = (1, vec![k, 1, (k + 1) / 2]);
+		s.push(if sw > 4 { El::Lookup { default, arms } } else { El::Table { default, arms } });
+	}
+	s.grow(g);
+	let mut pads = Vec::new();
+	for i in 0..k {
+		pads.push(s.pad(0));
+		s.target(i + 1);
+	}
+	for i in 0..k {
+		let want = if i + 1 == k {
+			32_768
+		} else {
+			let later: i64 = ops[i + 2..].iter().map(|o| growth(*o)).sum();
+			32_767 - later - if tight { growth(ops[i + 1]) - 1 } else { 0 }
+		};
+		if !s.fit(pads[i], js[i], want) {
+			return None;
+		}
+	}
+	Some(s)
+}
+
+/// J1 … Jk, growers, filler, target(s): every jump is too far in the all-narrow layout
+fn fan(ops: &[u8], same_target: bool, loopback: bool) -> Option<Scene> {
+	let k = ops.len();
+	let mut s = Scene::default();
+	s.mark(1000);
+	let js: Vec<usize> = ops.iter().enumerate().map(|(i, o)| s.jump(*o, if same_target { 1 } else { i + 1 })).collect();
+	s.grow(4 * k as u32 + 2);
+	let p = s.pad(0);
+	if same_target {
+		s.target(1);
+	} else {
+		for i in (0..k).rev() {
+			s.target(i + 1);
+		}
+	}
+	if loopback {
+		s.jump(op::GOTO, 1000);
+	}
+	s.fit(p, js[k - 1], 32_768).then_some(s)
+}
+
+/// T_B0 J_F0 T_B1 J_F1 … | growers, filler | J_B0 T_F0 J_B1 T_F1 … — forward jumps F_i and backward jumps B_i whose
+/// spans (all about 32 KiB) slide to the right with i. Only F_0 is too far at first. Rewriting F_i lengthens B_i alone
+/// (the only span that holds J_Fi) and pushes it under −32768; the trampoline of B_i, written in line in the same
+/// attempt, lengthens every later span and pushes exactly F_{i+1} over +32767: one attempt per forward jump,
+/// m + 1 layouts, 2m long sites. `tight`: every pushed jump ends up exactly one byte beyond its limit; otherwise it
+/// sat exactly at its limit before it was pushed.
+fn mixed_chain(m: usize, pattern: u8, tight: bool, gap: u32, g: u32) -> Option<Scene> {
+	let fop = |i: usize| pattern_op(pattern, 2 * i);
+	let bop = |i: usize| pattern_op(pattern, 2 * i + 1);
+	let (fid, bid) = (|i: usize| 2 * i + 1, |i: usize| 2 * i + 2);
+	let mut s = Scene::default();
+	let mut jf = vec![0usize; m];
+	let mut jb = vec![0usize; m];
+	let mut pa = vec![0usize; m];
+	let mut pb = vec![0usize; m];
+	for i in 0..m {
+		s.target(bid(i));
+		s.pad(6 + gap);
+		jf[i] = s.jump(fop(i), fid(i));
+		s.pad(18 + gap);
+	}
+	s.grow(g);
+	let x = s.pad(32_000);
+	for i in 0..m {
+		pb[i] = s.pad(0);
+		jb[i] = s.jump(bop(i), bid(i));
+		pa[i] = s.pad(0);
+		s.target(fid(i));
+	}
+	let slack = |w: i64| if tight { 0 } else { w - 1 };
+	// in the order of the right-hand cluster: every filler lies outside all spans fitted before it
+	for i in 0..m {
+		let earlier: i64 = (0..i).map(|j| growth(bop(j))).sum();
+		let want_b = -(32_769 - growth(fop(i)) - earlier + slack(growth(fop(i))));
+		if !s.fit(if i == 0 { x } else { pb[i] }, jb[i], want_b) {
+			return None;
+		}
+		let want_f = 32_768 - earlier + if i == 0 { 0 } else { slack(growth(bop(i - 1))) };
+		if !s.fit(pa[i], jf[i], want_f) {
+			return None;
+		}
+	}
+	Some(s)
+}
+
 impl Spec {
 	pub fn label(&self) -> String {
 		format!("{self:?}").replace(' ', "")
@@ -628,8 +785,11 @@ impl Spec {
 				s.pad_style(*total - 1, *style);
 				(s, 0)
 			},
-			Spec::Length { op, total, g } => (length_scene(*op, *total, *g)?, 0),
+			Spec::Length { op, total, g, decor } => (length_scene(*op, *total, *g)?, *decor),
 			Spec::HighBackward { op, p, d } => (high_backward(*op, *p, *d)?, 0),
+			Spec::Chain { k, pattern, tight, g, decor, sw, .. } => (chain(&(0..*k as usize).map(|i| pattern_op(*pattern, i)).collect::<Vec<u8>>(), *tight, *g, *sw)?, *decor),
+			Spec::Fan { k, pattern, same_target, decor, loopback } => (fan(&(0..*k as usize).map(|i| pattern_op(*pattern, i)).collect::<Vec<u8>>(), *same_target, *loopback)?, *decor),
+			Spec::Mixed { m, pattern, tight, gap, g, decor } => (mixed_chain(*m as usize, *pattern, *tight, *gap, *g)?, *decor),
 		};
 		// the scene must be a class file: conditional jumps in range, at most 65535 bytes
 		let input = scene.settled(Model::In)?;
@@ -637,7 +797,15 @@ impl Spec {
 			return None;
 		}
 		let intent = scene.intent();
-		let (class, enc) = scene.build(decor);
+		let (mut class, mut enc) = scene.build(decor);
+		if let Spec::Chain { twin: true, .. } = self {
+			// the same body once more as a second method of the class: the writer's per-method state starts afresh
+			let mut m2 = class.methods[1].clone();
+			m2.name = js("m2");
+			class.methods.push(m2);
+			let scene_forms = enc.forms[FILL..].to_vec();
+			enc.forms.extend(scene_forms);
+		}
 		Some(Case { label: self.label(), class, enc, intent })
 	}
 }
@@ -648,7 +816,7 @@ fn window(center: i32, below: i32, above: i32) -> impl Iterator<Item = i32> + Cl
 
 /// All threshold-window specifications of a tier, in a fixed order.
 pub fn specs(quick: bool) -> Vec<(&'static str, Vec<Spec>)> {
-	let w = if quick { 6 } else { 16 };
+	let w = if quick { 8 } else { 20 };
 	let mut groups = Vec::new();
 
 	// A. one far jump: every jump opcode × direction × distance around the limit
@@ -678,7 +846,7 @@ pub fn specs(quick: bool) -> Vec<(&'static str, Vec<Spec>)> {
 	let pairs: Vec<(u8, u8)> = vec![(0, 0), (0, op::GOTO), (op::GOTO, 0), (op::GOTO, op::GOTO), (op::JSR, 0), (0, op::JSR)];
 	for arr in 0..6u8 {
 		for &(p1, p2) in &pairs {
-			for a in if quick { vec![0u32] } else { vec![0u32, 1, 2] } {
+			for a in if quick { vec![0u32, 1] } else { vec![0u32, 1, 2] } {
 				let (w1, w2): (Vec<i32>, Vec<i32>) = {
 					let far1 = if quick { 1 } else { 3 };
 					let near2 = if quick { 1 } else { 3 };
@@ -705,14 +873,16 @@ pub fn specs(quick: bool) -> Vec<(&'static str, Vec<Spec>)> {
 	}
 	groups.push(("cascade-of-two", v));
 
-	if !quick {
+	{
+		// three forward jumps crossing each other (quick: the first two opcode triples, no gaps, narrower windows)
 		let mut v = Vec::new();
 		let triples: Vec<[u8; 3]> = vec![[op::IFEQ, IFNE, op::IFNULL], [op::GOTO, op::IFEQ, op::IFEQ], [op::IFEQ, op::GOTO, op::IFEQ], [op::IFEQ, op::IFEQ, op::GOTO], [op::JSR, op::GOTO, op::IF_ACMPNE]];
-		for ops in triples {
-			for a in 0..2u32 {
-				for b in 0..2u32 {
-					for d1 in window(32_767, 6, 1) {
-						for d2 in window(32_767, 6, 1) {
+		let (gaps, lo) = if quick { (1u32, 5) } else { (2u32, 6) };
+		for ops in triples.into_iter().take(if quick { 2 } else { 5 }) {
+			for a in 0..gaps {
+				for b in 0..gaps {
+					for d1 in window(32_767, lo, 1) {
+						for d2 in window(32_767, lo, 1) {
 							for d3 in window(32_767, 1, 2) {
 								v.push(Spec::Triple { ops, d: [d1, d2, d3], a, b, g: 9 });
 							}
@@ -722,6 +892,57 @@ pub fn specs(quick: bool) -> Vec<(&'static str, Vec<Spec>)> {
 			}
 		}
 		groups.push(("cascade-of-three", v));
+	}
+
+	// B'. chains: every rewriting pushes exactly one more jump over the limit (k + 1 layouts for k jumps), fans: k jumps
+	// that are all too far at once (one is found per attempt), mixed chains of forward and backward jumps
+	{
+		let mut v = Vec::new();
+		let ks: Vec<u32> = if quick { vec![3, 4, 5, 6, 7, 8, 10, 12, 17, 24, 33] } else { (3..=40).chain([48, 64, 96]).collect() };
+		for &k in &ks {
+			for pattern in 0..5u8 {
+				for tight in [true, false] {
+					let n = k as usize + pattern as usize;
+					v.push(Spec::Chain { k, pattern, tight, g: 1 + (n % 7) as u32, decor: (n % 2) as u8, twin: n % 3 == 0, sw: 0 });
+				}
+			}
+		}
+		// the same with a switch inside every span, at every alignment
+		for &k in ks.iter().filter(|k| quick.then_some(**k <= 12).unwrap_or(**k <= 40)) {
+			for pattern in [0u8, 2, 3] {
+				for sw in 1..=8u8 {
+					let n = k as usize + pattern as usize + sw as usize;
+					v.push(Spec::Chain { k, pattern, tight: n % 2 == 0, g: 4 + (n % 5) as u32, decor: (n % 2) as u8, twin: false, sw });
+				}
+			}
+		}
+		groups.push(("chain-of-k", v));
+		let mut v = Vec::new();
+		let ks: Vec<u32> = if quick { vec![3, 5, 9, 17, 33, 64, 130, 260] } else { (3..=40).chain([64, 100, 200, 260, 400, 700, 1000]).collect() };
+		for &k in &ks {
+			for pattern in 0..5u8 {
+				for same_target in [true, false] {
+					if k > 100 && (pattern > 1 || !same_target) {
+						continue; // the long fans: all-conditional and all-goto, one target
+					}
+					v.push(Spec::Fan { k, pattern, same_target, decor: ((k + pattern as u32) % 2) as u8, loopback: (k + pattern as u32) % 3 != 0 });
+				}
+			}
+		}
+		groups.push(("fan-of-k", v));
+		let mut v = Vec::new();
+		let ms: Vec<u32> = if quick { vec![1, 2, 3, 4, 5, 6, 9, 13] } else { (1..=32).collect() };
+		for &m in &ms {
+			for pattern in [0u8, 2, 3, 1] {
+				for tight in [true, false] {
+					for gap in if quick { vec![0u32, 1] } else { vec![0u32, 1, 2, 3] } {
+						let n = (m + pattern as u32 + gap) as usize;
+						v.push(Spec::Mixed { m, pattern, tight, gap, g: 2 + (n % 5) as u32, decor: (n % 2) as u8 });
+					}
+				}
+			}
+		}
+		groups.push(("mixed-chain", v));
 	}
 
 	// C. switches at every alignment next to a jump at the threshold
@@ -751,6 +972,17 @@ pub fn specs(quick: bool) -> Vec<(&'static str, Vec<Spec>)> {
 			}
 		}
 	}
+	for lookup in [false, true] {
+		for r in 0..4 {
+			for pre in if quick { vec![-3, -2, -1, 1, 2, 3] } else { (-9..=6).filter(|p| *p != 0).collect::<Vec<i32>>() } {
+				for op in [IFLT, op::GOTO] {
+					for d in window(-32_768, if quick { 3 } else { 6 }, if quick { 3 } else { 6 }) {
+						v.push(Spec::Switch { kind: 4, lookup, op, r, pre, d, g: 0, decor: 0 });
+					}
+				}
+			}
+		}
+	}
 	groups.push(("switch-alignment", v));
 
 	// D. code length at the limit
@@ -763,7 +995,8 @@ pub fn specs(quick: bool) -> Vec<(&'static str, Vec<Spec>)> {
 	for op in [op::IFEQ, IF_ICMPGE, op::IFNULL, op::GOTO, op::JSR] {
 		for total in 65_528..=65_541u32 {
 			for g in [4u32, 7] {
-				v.push(Spec::Length { op, total, g: if is_uncond(op) && g == 4 { 0 } else { g } });
+				// decor 1: exception, line-number, local-variable and type-annotation entries that end at the end of the code
+				v.push(Spec::Length { op, total, g: if is_uncond(op) && g == 4 { 0 } else { g }, decor: (g == 7) as u8 });
 			}
 		}
 	}
@@ -789,10 +1022,16 @@ pub fn operand_cases(quick: bool) -> Vec<(String, SClass, Encoding)> {
 	// ldc of the pool entries around index 255: `fill` distinct one-slot (and optionally two-slot) constants first
 	let (lo, hi) = if quick { (236usize, 262usize) } else { (150, 300) };
 	for fill in lo..=hi {
-		for two_slot in [0usize, 1, 3] {
+		// two_slot 7: one long and, first of all, the string "p/L" — it shares its Utf8 entry with the name of the class, so
+		// renaming the class splits the entry and every later constant moves up by one index
+		for two_slot in [0usize, 1, 3, 7] {
 			for (pi, pool) in [PoolOrder::FirstUse, PoolOrder::Reversed].into_iter().enumerate() {
 				let mut c = skeleton("p/L");
-				let mut first: Vec<SInsn> = (0..two_slot).map(|j| SInsn::Ldc(SConst::Long(5_000_000_000 + j as i64))).collect();
+				let shared = two_slot == 7;
+				let mut first: Vec<SInsn> = (0..two_slot % 6).map(|j| SInsn::Ldc(SConst::Long(5_000_000_000 + j as i64))).collect();
+				if shared {
+					first.insert(0, SInsn::Ldc(SConst::Str(js("p/L"))));
+				}
 				first.extend((0..fill).map(|j| SInsn::Ldc(SConst::Int(1_000_000 + j as i32))));
 				first.push(RETURN);
 				c.methods.push(method_with("fill", "()V", first));
@@ -888,11 +1127,19 @@ pub fn patched_invokeinterface() -> Vec<(String, Vec<u8>)> {
 
 /// Classes whose constant pool is (nearly) full: distinct integers loaded by several methods until
 /// `constant_pool_count` is exactly `count`, optionally a long as the very last constant.
+/// `shared`: the class also loads the strings "p/Full" and "m0", whose Utf8 entries it shares with its own name and
+/// the name of its first method — renaming the class and the method splits them, so the renamed tree needs two
+/// entries more than the file it was read from (the only way read-then-write reaches the pool overflow check).
 pub fn full_pool_cases(quick: bool) -> Vec<(String, SClass, Encoding)> {
+	let _ = quick;
 	let mut v = Vec::new();
 	let per_method = 21_000usize;
-	let shapes: Vec<(u16, bool)> = if quick { vec![(65_535, false), (65_535, true)] } else { vec![(65_533, false), (65_534, false), (65_535, false), (65_534, true), (65_535, true)] };
-	let build = |n: usize, long_last: bool| -> SClass {
+	let mut shapes: Vec<(u16, bool, bool)> = vec![(65_533, false, false), (65_534, false, false), (65_535, false, false), (65_534, true, false), (65_535, true, false)];
+	for count in 65_531..=65_535u16 {
+		shapes.push((count, false, true));
+	}
+	shapes.push((65_533, true, true));
+	let build = |n: usize, long_last: bool, shared: bool| -> SClass {
 		let mut c = skeleton("p/Full");
 		let mut k = 0usize;
 		let mut mi = 0;
@@ -900,6 +1147,10 @@ pub fn full_pool_cases(quick: bool) -> Vec<(String, SClass, Encoding)> {
 			let take = per_method.min(n - k);
 			let mut insns: Vec<SInsn> = (k..k + take).map(|j| SInsn::Ldc(SConst::Int(j as i32))).collect();
 			k += take;
+			if mi == 0 && shared {
+				insns.push(SInsn::Ldc(SConst::Str(js("p/Full"))));
+				insns.push(SInsn::Ldc(SConst::Str(js("m0"))));
+			}
 			if k == n && long_last {
 				insns.push(SInsn::Ldc(SConst::Long(1 << 40)));
 			}
@@ -910,14 +1161,14 @@ pub fn full_pool_cases(quick: bool) -> Vec<(String, SClass, Encoding)> {
 		c
 	};
 	let enc = Encoding { default_form: 2, ..Default::default() };
-	for (count, long_last) in shapes {
-		let mut n = count as usize - 12 - if long_last { 2 } else { 0 };
+	for (count, long_last, shared) in shapes {
+		let mut n = count as usize - 12 - if long_last { 2 } else { 0 } - if shared { 2 } else { 0 };
 		for _ in 0..3 {
-			let c = build(n, long_last);
+			let c = build(n, long_last, shared);
 			let got = cfmodel::asm::assemble(&c, &enc).ok().and_then(|b| cfmodel::parse(&b).ok()).map(|p| p.pool_count);
 			match got {
 				Some(g) if g == count => {
-					v.push((format!("full-pool/count{count}/long{long_last}"), c, enc.clone()));
+					v.push((format!("full-pool/count{count}/long{long_last}/shared{shared}"), c, enc.clone()));
 					break;
 				},
 				Some(g) => n = (n as i64 + count as i64 - g as i64) as usize,
